@@ -110,8 +110,10 @@ theorem action_loc_is_prestart_partial (start en : Nat) (as : List Act) :
 `runOps ops` (Model) = (`parseAction`, `callDuringTry`) after the operations `ops` on a fresh element;
 `E.ofHist ops e` = the element `e` carrying that configuration.  All statements are for every history. -/
 
+/-- operations that REPLACE the configuration: `set_parse_action(*fns)` and `set_parse_action(None)` -/
 def Op.isSet : Op → Bool
   | .setAct _ _ => true
+  | .clear => true
   | _ => false
 
 /-- the `call_during_try` keyword the operation was given (default `False`; none for clear / copy) -/
@@ -127,10 +129,6 @@ def Op.added : Op → List Act
   | .addCond as _ => as
   | _ => []
 
-def Op.isClear : Op → Bool
-  | .clear => true
-  | _ => false
-
 theorem runOpsFrom_append (c : ACfg) (a b : List Op) : runOpsFrom c (a ++ b) = runOpsFrom (runOpsFrom c a) b := by
   simp [runOpsFrom, List.foldl_append]
 
@@ -143,7 +141,13 @@ theorem set_parse_action_replaces (pre : List Op) (as : List Act) (k : Option Bo
     runOps (pre ++ [.setAct as k]) = ⟨as, kw k⟩ := by
   simp [runOps, runOpsFrom_append, runOpsFrom, applyOp]
 
-/-- the flag after operations none of which is a `set_parse_action(fns)`: or-accumulated -/
+/-- **clear_resets_flag** (core.py:700-703, since the fix 7688521 of the former finding
+    `call_during_try_survives_clear`): `set_parse_action(None)` is `set_parse_action()` — no actions, flag off —
+    whatever came before. -/
+theorem clear_resets_flag (pre : List Op) : runOps (pre ++ [.clear]) = ⟨[], false⟩ := by
+  simp [runOps, runOpsFrom_append, runOpsFrom, applyOp]
+
+/-- the flag after operations none of which replaces the configuration: or-accumulated -/
 theorem flag_from (c : ACfg) (ops : List Op) (h : ∀ op ∈ ops, op.isSet = false) :
     (runOpsFrom c ops).cdt = (c.cdt || ops.any Op.kwArg) := by
   induction ops generalizing c with
@@ -153,77 +157,79 @@ theorem flag_from (c : ACfg) (ops : List Op) (h : ∀ op ∈ ops, op.isSet = fal
     have ho := h o (List.mem_cons_self ..)
     cases o <;> simp_all [applyOp, Op.kwArg, Op.isSet, Bool.or_assoc]
 
-/-- **add_never_clears**: `add_parse_action` / `add_condition` (and `set_parse_action(None)`, `copy()`) never take
-    the flag away -/
+/-- **add_never_clears**: `add_parse_action` / `add_condition` (and `copy()`) never take the flag away -/
 theorem add_never_clears (c : ACfg) (ops : List Op) (h : ∀ op ∈ ops, op.isSet = false) (hc : c.cdt = true) :
     (runOpsFrom c ops).cdt = true := by
   rw [flag_from c ops h, hc]; rfl
 
-/-- **flag_after_history** (full characterisation): the gate flag is the keyword of the LAST `set_parse_action`
-    or-ed with the keywords of the `add_*` operations after it; nothing before that `set_parse_action` matters. -/
-theorem flag_after_history (pre post : List Op) (as : List Act) (k : Option Bool)
+/-- **flag_after_history** (full characterisation): the gate flag is the keyword of the LAST replacing operation
+    (`set_parse_action(fns, k)`: `k`; `set_parse_action(None)`: `False`) or-ed with the keywords of the `add_*`
+    operations after it; nothing before that operation matters. -/
+theorem flag_after_history (pre post : List Op) (o : Op) (ho : o.isSet = true)
     (h : ∀ op ∈ post, op.isSet = false) :
-    (runOps (pre ++ .setAct as k :: post)).cdt = (kw k || post.any Op.kwArg) := by
+    (runOps (pre ++ o :: post)).cdt = (o.kwArg || post.any Op.kwArg) := by
   simp only [runOps, runOpsFrom_append, runOpsFrom_cons]
-  rw [flag_from _ post h]; rfl
+  rw [flag_from _ post h]
+  cases o <;> simp_all [applyOp, Op.kwArg, Op.isSet]
 
-/-- without any `set_parse_action(fns)`: the or of all keywords -/
+/-- without any replacing operation: the or of all keywords -/
 theorem flag_without_set (ops : List Op) (h : ∀ op ∈ ops, op.isSet = false) :
     (runOps ops).cdt = ops.any Op.kwArg := by
   simp [runOps, flag_from _ ops h, ACfg.init]
 
-theorem acts_from (c : ACfg) (ops : List Op) (h : ∀ op ∈ ops, op.isSet = false ∧ op.isClear = false) :
+theorem acts_from (c : ACfg) (ops : List Op) (h : ∀ op ∈ ops, op.isSet = false) :
     (runOpsFrom c ops).acts = c.acts ++ ops.flatMap Op.added := by
   induction ops generalizing c with
   | nil => simp [runOpsFrom]
   | cons o os ih =>
     rw [runOpsFrom_cons, ih _ (fun op hop => h op (List.mem_cons_of_mem _ hop))]
     have ho := h o (List.mem_cons_self ..)
-    cases o <;> simp_all [applyOp, Op.added, Op.isSet, Op.isClear]
+    cases o <;> simp_all [applyOp, Op.added, Op.isSet]
 
-/-- **acts_after_history**: the actions installed before the last `set_parse_action` are gone -/
-theorem acts_after_history (pre post : List Op) (as : List Act) (k : Option Bool)
-    (h : ∀ op ∈ post, op.isSet = false ∧ op.isClear = false) :
-    (runOps (pre ++ .setAct as k :: post)).acts = as ++ post.flatMap Op.added := by
+/-- the callables a replacing operation installs -/
+def Op.installs : Op → List Act
+  | .setAct as _ => as
+  | _ => []
+
+/-- **acts_after_history**: the actions installed before the last replacing operation are gone -/
+theorem acts_after_history (pre post : List Op) (o : Op) (ho : o.isSet = true)
+    (h : ∀ op ∈ post, op.isSet = false) :
+    (runOps (pre ++ o :: post)).acts = o.installs ++ post.flatMap Op.added := by
   simp only [runOps, runOpsFrom_append, runOpsFrom_cons]
-  rw [acts_from _ post h]; rfl
+  rw [acts_from _ post h]
+  cases o <;> simp_all [applyOp, Op.installs, Op.isSet]
 
 theorem hasCdt_ofHist (ops : List Op) (e : E) : hasCdt (E.ofHist ops e) = ((runOps ops).cdt || hasCdt e) := by
   simp [E.ofHist, hasCdt]
 
-/-- **replaced_action_silent_when_trying**: an element whose last `set_parse_action` came without
-    `call_during_try` (and whose later `add_*` came without it too) fires nothing when it is matched on trial
-    (`do_actions = False`: Or / Each first pass, SkipTo scan and fail_on, stop_on, lookaheads) — although an
-    EARLIER action or condition of the element had `call_during_try=True`. -/
-theorem replaced_action_silent_when_trying (s : List Char) (fuel : Nat) (pre post : List Op) (as : List Act)
-    (k : Option Bool) (e : E) (loc : Nat) (cp : Bool)
-    (hk : kw k = false) (hpost : ∀ op ∈ post, op.isSet = false ∧ op.kwArg = false) (he : hasCdt e = false) :
-    (parse s fuel (E.ofHist (pre ++ .setAct as k :: post) e) loc false cp).2 = [] := by
+/-- **replaced_action_silent_when_trying**: an element whose last replacing operation (`set_parse_action(fns)` or
+    `set_parse_action(None)`) came without `call_during_try` (and whose later `add_*` came without it too) fires
+    nothing when it is matched on trial (`do_actions = False`: Or / Each first pass, SkipTo scan and fail_on,
+    stop_on, lookaheads) — although an EARLIER action or condition of the element had `call_during_try=True`. -/
+theorem replaced_action_silent_when_trying (s : List Char) (fuel : Nat) (pre post : List Op) (o : Op)
+    (e : E) (loc : Nat) (cp : Bool) (ho : o.isSet = true)
+    (hk : o.kwArg = false) (hpost : ∀ op ∈ post, op.isSet = false ∧ op.kwArg = false) (he : hasCdt e = false) :
+    (parse s fuel (E.ofHist (pre ++ o :: post) e) loc false cp).2 = [] := by
   apply no_actions_when_trying
-  rw [hasCdt_ofHist, flag_after_history pre post as k (fun op hop => (hpost op hop).1), hk, he]
+  rw [hasCdt_ofHist, flag_after_history pre post o ho (fun op hop => (hpost op hop).1), hk, he]
   have : post.any Op.kwArg = false := by
     rw [List.any_eq_false]; intro op hop; simp [(hpost op hop).2]
   simp [this]
 
-/-- … and with `do_actions = True` it fires only the actions installed by that `set_parse_action` and after -/
-theorem history_fires_only_current_actions (s : List Char) (fuel : Nat) (pre post : List Op) (as : List Act)
-    (k : Option Bool) (e : E) (loc : Nat) (da cp : Bool)
-    (hpost : ∀ op ∈ post, op.isSet = false ∧ op.isClear = false) :
-    ∀ ev ∈ (parse s fuel (E.ofHist (pre ++ .setAct as k :: post) e) loc da cp).2,
-      ev.1 ∈ (as ++ post.flatMap Op.added).map (·.id) ∨ ev.1 ∈ firable da e := by
+/-- … and with `do_actions = True` it fires only the actions installed by that operation and after -/
+theorem history_fires_only_current_actions (s : List Char) (fuel : Nat) (pre post : List Op) (o : Op)
+    (e : E) (loc : Nat) (da cp : Bool) (ho : o.isSet = true)
+    (hpost : ∀ op ∈ post, op.isSet = false) :
+    ∀ ev ∈ (parse s fuel (E.ofHist (pre ++ o :: post) e) loc da cp).2,
+      ev.1 ∈ (o.installs ++ post.flatMap Op.added).map (·.id) ∨ ev.1 ∈ firable da e := by
   intro ev hev
   have := parse_sound s fuel _ loc da cp ev hev
-  simp only [E.ofHist, firable, acts_after_history pre post as k hpost, List.mem_append] at this
+  simp only [E.ofHist, firable, acts_after_history pre post o ho hpost, List.mem_append] at this
   rcases this with h | h
   · split at h
     · exact Or.inl h
     · cases h
   · exact Or.inr h
-
-/-- what the code does with `set_parse_action(None)` (core.py:700-702): the actions are cleared, the flag is not
-    touched — a later `add_parse_action(fn)` without `call_during_try` inherits it.  (The check keeps its generators
-    out of "clear while the flag is set"; see the report of the check's maintainer.) -/
-theorem clear_keeps_flag (c : ACfg) : applyOp c .clear = ⟨[], c.cdt⟩ := rfl
 
 /-! ## non-vacuity -/
 
@@ -252,7 +258,14 @@ example : parse "aab".toList 10 (.skipTo (E.ofHist exHist (.lit 'b')) none true)
   decide
 /-- the same history with the operations the other way round keeps the flag: `add_*` or-accumulates -/
 example : (runOps [.setAct [⟨2, .keep⟩] none, .addCond [⟨1, .keep⟩] (some true)]).cdt = true := by decide
-example : (runOps [.addAct [⟨1, .keep⟩] (some true), .clear, .addAct [⟨2, .keep⟩] none]) = ⟨[⟨2, .keep⟩], true⟩ := by
+/-- the former finding `call_during_try_survives_clear` (fixed in 7688521): an action added after
+    `set_parse_action(None)` is a plain one; as the target of a SkipTo scan it fires nothing -/
+def exClear : List Op := [.addAct [⟨1, .keep⟩] (some true), .clear, .addAct [⟨2, .keep⟩] none]
+example : runOps exClear = ⟨[⟨2, .keep⟩], false⟩ := by decide
+example : parse "aab".toList 10 (.skipTo (E.ofHist exClear (.lit 'b')) none false) 0 true true = (.ok 2, []) := by
   decide
+example : (parse "b".toList 10 (E.ofHist exClear (.lit 'b')) 0 false true).2 = [] :=
+  replaced_action_silent_when_trying "b".toList 10 [.addAct [⟨1, .keep⟩] (some true)] [.addAct [⟨2, .keep⟩] none]
+    .clear (.lit 'b') 0 true rfl rfl (by decide) rfl
 
 end PP.ActionGate
